@@ -38,6 +38,18 @@ pub struct Tracer {
     pub n_probes: u64,
     pub op_kinds: BTreeMap<String, u64>,
     pub max_height_seen: u64,
+    /// intern rows of block_number_to_block with their `mineTimestamp` (elapsed processing time,
+    /// different in every run) zeroed, so that value ids are comparable ACROSS runs of one history
+    pub norm_rows: bool,
+}
+
+/// A block_number_to_block row with the run-dependent `mineTimestamp` field zeroed.
+pub fn norm_block_row(bytes: &[u8]) -> Vec<u8> {
+    use brc20_prog::verif_hooks::{BlockResponseED, Decode, Encode};
+    match BlockResponseED::decode_vec(&bytes.to_vec()) {
+        Ok(mut b) => { b.mine_timestamp = 0u128.into(); b.encode_vec() }
+        Err(_) => bytes.to_vec(),
+    }
 }
 
 impl Tracer {
@@ -73,7 +85,7 @@ impl Tracer {
                 }
                 Ev::BSet { table, key, val } => {
                     let Some(b) = bt_index(table) else { continue };
-                    let v = self.val(val);
+                    let v = if self.norm_rows && b == 1 { let nb = norm_block_row(val); self.val(&nb) } else { self.val(val) };
                     self.max_height_seen = self.max_height_seen.max(*key);
                     self.push_op("SB", format!("SB {} {} {}", b, key, v));
                 }
@@ -137,8 +149,13 @@ impl Tracer {
             }
             rvals.push(format!("[{}]", l.join("; ")));
         }
-        let rows_out: Vec<String> = r["rows"].as_array().cloned().unwrap_or_default().iter().map(|v| opt_val(self, v)).collect();
         let nh = heights.len();
+        let norm = self.norm_rows;
+        let rows_out: Vec<String> = r["rows"].as_array().cloned().unwrap_or_default().iter().enumerate().map(|(i, v)| {
+            if norm && i / nh.max(1) == 1 {
+                match v.as_str() { Some(s) => format!("(Some {})", self.val(&norm_block_row(&hex::decode(s).unwrap_or_default()))), None => "None".into() }
+            } else { opt_val(self, v) }
+        }).collect();
         let seg = |i: usize| format!("[{}]", rows_out[i * nh..(i + 1) * nh].join("; "));
         let maxb = r["max"].as_str().and_then(|s| s.parse::<u64>().ok()).unwrap_or(0);
         self.items.push(format!(
